@@ -95,6 +95,7 @@ class SchedBackend(AutoBatchingMixin, ParallelBackendBase):
 
     def configure(self, n_jobs=1, parallel=None, **kw):
         self.parallel = parallel
+        self.eng.backend_parallel = parallel
         self.eng.ev("configure", n_jobs=n_jobs)
         return self.effective_n_jobs(n_jobs)
 
@@ -207,6 +208,13 @@ class Engine:
                 self.held[key] = release
                 self.ev("gate_hit", gate=name, at=occurrence)
                 g["_thread"] = threading.current_thread().name
+                # does THIS thread own joblib's dispatch lock here?  (a batch completed synchronously inside submit()
+                # runs its whole callback inside the dispatching thread's locked section)
+                lock = getattr(getattr(self, "backend_parallel", None), "_lock", None)
+                try:
+                    g["_holds_lock"] = bool(lock is not None and lock._is_owned())
+                except Exception:
+                    g["_holds_lock"] = True
                 self.evq.put(("gate", key, g))
                 if not release.wait(WATCHDOG * 3):
                     self.problems.append("harness: gate %r never released" % (key,))
@@ -384,7 +392,8 @@ class Engine:
             # the NEXT consumer action has been started: "the consumer closes / pulls while a callback is dispatching"
             self.parked_gates.append(key)
             # keeping a callback parked until the NEXT call only makes sense when its own run is abandoned right away
-            self.park_policy[key] = g.get("park") if (g.get("park") != "next_call" or self.park_next_call_ok) else True
+            # ... and the parked thread must not own joblib's lock (the consumer's close()/drop needs it)
+            self.park_policy[key] = g.get("park") if (g.get("park") != "next_call" or (self.park_next_call_ok and not g.get("_holds_lock"))) else True
             self.ev("gate_parked", gate=key[0], at=key[1])
             return
         started = []
